@@ -39,29 +39,30 @@ func init() {
 			fr.m.notes["env:"+concStr(args[0], "env key")] = args[1]
 			return nil
 		},
-		"MapOrder":               zzMapOrder,
-		"And":                    zzAnd,
-		"Or":                     zzOr,
-		"Not":                    zzNot,
-		"Implies":                zzImplies,
-		"Bind":                   zzBind,
-		"IteInt":                 zzIte,
-		"IteStr":                 zzIte,
-		"Go":                     zzGo,
-		"Yield":                  zzYield,
-		"Count":                  zzCount,
-		"CountGet":               zzCountGet,
-		"StubCalls":              zzStubCalls,
-		"Ticks":                  zzTicks,
-		"TicksLeft":              func(fr *frame, args []value) value { return fr.m.tickBudget },
-		"AllowMainBlock":         zzAllowMainBlock,
-		"BlockForever":           zzBlockForever,
-		"WaitUntil":              zzWaitUntil,
-		"LastDoneCheckSawClosed": zzLastDoneSawClosed,
-		"ThreadID":               zzThreadID,
-		"Symbolic":               func(fr *frame, args []value) value { return true },
-		"Concretize":             zzConcretize,
-		"ConcretizeStr":          zzConcretizeStr,
+		"MapOrder":                zzMapOrder,
+		"And":                     zzAnd,
+		"Or":                      zzOr,
+		"Not":                     zzNot,
+		"Implies":                 zzImplies,
+		"Bind":                    zzBind,
+		"IteInt":                  zzIte,
+		"IteStr":                  zzIte,
+		"Go":                      zzGo,
+		"Yield":                   zzYield,
+		"Count":                   zzCount,
+		"CountGet":                zzCountGet,
+		"StubCalls":               zzStubCalls,
+		"Ticks":                   zzTicks,
+		"TicksLeft":               func(fr *frame, args []value) value { return fr.m.tickBudget },
+		"AllowMainBlock":          zzAllowMainBlock,
+		"BlockForever":            zzBlockForever,
+		"WaitUntil":               zzWaitUntil,
+		"LastDoneCheckSawClosed":  zzLastDoneSawClosed,
+		"SleptSinceLastDoneCheck": func(fr *frame, args []value) value { return fr.m.cur.sleptSinceDone },
+		"ThreadID":                zzThreadID,
+		"Symbolic":                func(fr *frame, args []value) value { return true },
+		"Concretize":              zzConcretize,
+		"ConcretizeStr":           zzConcretizeStr,
 	}
 	for k, v := range base {
 		zzAPI[k] = v
